@@ -259,6 +259,97 @@ pub fn check_class(case: &Case, l: &mut Local) -> Verdict {
     Verdict::Pass { nontrivial: ops >= 2 && yes > 0 && no > 0 }
 }
 
+// ---- variant 1b: bounded-exhaustive v-mode expressions of depth <= 2 over a small operand set
+
+fn slice_operands() -> Vec<CsOp> {
+    let q = |v: Vec<&str>| CsOp::Q(v.into_iter().map(|s| s.chars().map(|c| c as u32).collect()).collect());
+    vec![
+        CsOp::Ch(0x61),
+        CsOp::Ch(0x62),
+        CsOp::Ch(0x41),
+        CsOp::Range(0x61, 0x62),
+        CsOp::Esc(b'd'),
+        CsOp::Esc(b'w'),
+        CsOp::Esc(b'W'),
+        q(vec!["ab"]),
+        q(vec!["a", "bc"]),
+        q(vec![""]),
+        q(vec!["ab", "AB", "b"]),
+        CsOp::Nested(Box::new(Cs { neg: false, kind: CsKind::Union, ops: vec![CsOp::Ch(0x61), CsOp::Ch(0x42)] })),
+        CsOp::Nested(Box::new(Cs { neg: true, kind: CsKind::Union, ops: vec![CsOp::Ch(0x61)] })),
+    ]
+}
+
+fn wrap_for(kind: &CsKind, op: &CsOp) -> CsOp {
+    match (kind, op) {
+        (CsKind::Union, _) => op.clone(),
+        (_, CsOp::Range(a, b)) => CsOp::Nested(Box::new(Cs { neg: false, kind: CsKind::Union, ops: vec![CsOp::Range(*a, *b)] })),
+        _ => op.clone(),
+    }
+}
+
+fn cs_strings(cs: &Cs) -> bool {
+    // static MayContainStrings of the generated tree (mirrors the generator's rule)
+    let op_s = |op: &CsOp| match op {
+        CsOp::Q(v) => v.is_empty() || v.iter().any(|s| s.len() != 1),
+        CsOp::Nested(c) => !c.neg && cs_strings(c),
+        _ => false,
+    };
+    match cs.kind {
+        CsKind::Union => cs.ops.iter().any(op_s),
+        CsKind::Inter => cs.ops.iter().all(op_s),
+        CsKind::Sub => cs.ops.first().map(op_s).unwrap_or(false),
+    }
+}
+
+fn v_slice() -> &'static Vec<Case> {
+    static V: OnceLock<Vec<Case>> = OnceLock::new();
+    V.get_or_init(|| {
+        let ops = slice_operands();
+        let kinds = [CsKind::Union, CsKind::Inter, CsKind::Sub];
+        let mut e1: Vec<Cs> = vec![];
+        for k in &kinds {
+            for a in &ops {
+                for b in &ops {
+                    e1.push(Cs { neg: false, kind: k.clone(), ops: vec![wrap_for(k, a), wrap_for(k, b)] });
+                }
+            }
+        }
+        let mut all: Vec<Cs> = e1.clone();
+        for k in &kinds {
+            for e in &e1 {
+                for o in &ops {
+                    all.push(Cs { neg: false, kind: k.clone(), ops: vec![CsOp::Nested(Box::new(e.clone())), wrap_for(k, o)] });
+                    all.push(Cs { neg: false, kind: k.clone(), ops: vec![wrap_for(k, o), CsOp::Nested(Box::new(e.clone()))] });
+                }
+            }
+        }
+        let probes: Vec<String> = ["", "a", "b", "c", "A", "B", "C", "1", "_", "-", " ", "ab", "AB", "aB", "bc", "BC", "abc", "ba", "é", "ſ", "K"].iter().map(|s| s.to_string()).collect();
+        let mut out = vec![];
+        for cs in all {
+            let may = cs_strings(&cs);
+            for neg in [false, true] {
+                if neg && may {
+                    continue;
+                }
+                let c = Cs { neg, ..cs.clone() };
+                let mut pat = vec!['^' as u32];
+                pat.extend(print_cs(&c));
+                pat.push('$' as u32);
+                for f in ["v", "iv"] {
+                    out.push(Case { pat: pat.clone(), flags: f.to_string(), hay: String::new(), hay16: vec![], start: 0, x: json!({ "probes": probes }) });
+                }
+            }
+        }
+        out
+    })
+}
+
+fn gen_vslice(src: &mut Src, _t: Tier) -> Case {
+    let v = v_slice();
+    v[(src.raw() as usize).min(v.len() - 1)].clone()
+}
+
 // ---- variant 2: metamorphic laws on v-mode expressions (no oracle)
 
 fn print_cs(cs: &Cs) -> Vec<u32> {
@@ -472,23 +563,25 @@ fn check_sweep(case: &Case, l: &mut Local) -> Verdict {
 }
 
 pub static V_CLASS: Variant = Variant { name: "class_vs_reference", choice_len: 400, gen: gen_class_case, check: check_class };
+pub static V_VSLICE: Variant = Variant { name: "exhaustive_v_depth2", choice_len: 1, gen: gen_vslice, check: check_class };
 pub static V_RAW: Variant = Variant { name: "annex_b_spellings", choice_len: 100, gen: gen_raw_class_case, check: check_class };
 pub static V_LAWS: Variant = Variant { name: "set_laws", choice_len: 400, gen: gen_laws, check: check_laws };
 pub static V_SWEEP: Variant = Variant { name: "fixed_set_sweeps", choice_len: 1, gen: gen_sweep, check: check_sweep };
 
 pub fn variants() -> Vec<&'static Variant> {
-    vec![&V_CLASS, &V_RAW, &V_LAWS, &V_SWEEP]
+    vec![&V_CLASS, &V_RAW, &V_LAWS, &V_SWEEP, &V_VSLICE]
 }
 
 pub fn run(ctx: &Ctx) -> i32 {
     esref::selftest::ensure();
     ctx.run_list(&V_SWEEP, &sweep_cases());
+    ctx.run_list(&V_VSLICE, v_slice());
     ctx.run_variant(&V_CLASS, ctx.scale(150_000, 2_500_000));
     ctx.run_variant(&V_RAW, ctx.scale(150_000, 2_500_000));
     ctx.run_variant(&V_LAWS, ctx.scale(100_000, 1_500_000));
     ctx.finish(
         "exploration",
-        "(1) class expressions: legacy/u brackets (chars, ranges, class escapes, \\p) and v-mode expression trees to depth 3 (union / && / --, nested and negated nested classes, \\q{} with 0-3 strings of length 0-3, \\p), with and without i, outer negation, over themed alphabets incl. interval stress points (0, 7F/80, D7FF/E000, 10FFFF); /^E$/ is probed with every mentioned character, its neighbours, its case partners, 26 decoys from every plane, every \\q string with its prefixes / extensions / case variants, and the empty string; oracle = the reference model's set semantics (opt and no_opt pipelines). (2) the same for raw Annex B spellings ([a-\\d], [--a], [\\c1], [\\b], legacy octal...). (3) metamorphic set laws on generated v-mode operands (commutativity, A--B = A&&[^B], [[A]] = [A], double complement, De Morgan) judged on the probes with no oracle. (4) EXHAUSTIVE sweeps over all 1,112,064 scalar values of \\d \\D \\w \\W \\s \\S, the same inside [..] and [^..], '.', [^], unions, and \\b/\\B next to every character, for flags {-,u,v,s,m} against sets written out from the spec. Non-trivial = class with >= 2 operators/escapes having both a member and a non-member among the probes.",
+        "(0) bounded-exhaustive: ALL v-mode expressions of depth <= 2 (union / && / -- of two operands, and of such an expression with an operand on either side) over 13 operands {a, b, A, a-b, \\d, \\w, \\W, \\q{ab}, \\q{a|bc}, \\q{}, \\q{ab|AB|b}, [aB], [^a]}, outer negation where the grammar allows it, flags v and iv, each probed with 21 fixed strings. (1) class expressions: legacy/u brackets (chars, ranges, class escapes, \\p) and v-mode expression trees to depth 3 (union / && / --, nested and negated nested classes, \\q{} with 0-3 strings of length 0-3, \\p), with and without i, outer negation, over themed alphabets incl. interval stress points (0, 7F/80, D7FF/E000, 10FFFF); /^E$/ is probed with every mentioned character, its neighbours, its case partners, 26 decoys from every plane, every \\q string with its prefixes / extensions / case variants, and the empty string; oracle = the reference model's set semantics (opt and no_opt pipelines). (2) the same for raw Annex B spellings ([a-\\d], [--a], [\\c1], [\\b], legacy octal...). (3) metamorphic set laws on generated v-mode operands (commutativity, A--B = A&&[^B], [[A]] = [A], double complement, De Morgan) judged on the probes with no oracle. (4) EXHAUSTIVE sweeps over all 1,112,064 scalar values of \\d \\D \\w \\W \\s \\S, the same inside [..] and [^..], '.', [^], unions, and \\b/\\B next to every character, for flags {-,u,v,s,m} against sets written out from the spec. Non-trivial = class with >= 2 operators/escapes having both a member and a non-member among the probes.",
         &["esref's class evaluator and Unicode data (V8/ICU export, std) are the trusted base", "properties of strings are not evaluated by the reference (C11 covers them)"],
     )
 }
